@@ -7,7 +7,7 @@
 (* replica's internal state after the call, reads = its reads.             *)
 (* TraceStep performs the SPEC's action with the logged arguments (the op  *)
 (* of a "gen" event is rebuilt by the spec's MkOp, never taken from the    *)
-(* log).  It never blocks; the engine's Trace_* module appends to `bad`    *)
+(* log).  It never blocks (a panic of the library is an event too); the engine's Trace_* module appends to `bad`    *)
 (* every event at which the recording disagrees with the spec.             *)
 (* Instantiated by implicit substitution inside a module that already      *)
 (* contains the system (INSTANCE ReplCore) and defines Rec and CmdOf.      *)
@@ -49,6 +49,8 @@ TraceStep ==
         /\ st' = [st EXCEPT ![r] = Merge(@, snap[1])]
         /\ know' = [know EXCEPT ![r] = @ \cup snap[2]]
         /\ UNCHANGED <<ops, snap>>
+     \/ /\ e.a = "panic"                       \* the library panicked inside the call (the driver abandons the history):
+        /\ UNCHANGED <<st, know, ops, snap>>    \* nothing to bind; the engine's Trace_* module records it in `bad`
      \/ /\ e.a = "reset"                       \* a new history starts
         /\ st' = [q \in Reps |-> InitSt] /\ know' = [q \in Reps |-> {}] /\ ops' = <<>> /\ snap' = <<>>
 
